@@ -50,8 +50,8 @@ type Opaque struct {
 }
 
 type ChanV struct {
-	Kind string // "ticker", "done", "plain"
-	Buf  []Value
+	Kind   string // "ticker", "done", "plain"
+	Buf    []Value
 	Closed bool
 }
 
@@ -66,10 +66,10 @@ type MapV struct {
 }
 
 type iterV struct { // Range iterator
-	m    *MapV
-	keys []*mapEntry // snapshot
-	pos  int
-	str  string
+	m     *MapV
+	keys  []*mapEntry // snapshot
+	pos   int
+	str   string
 	isStr bool
 }
 
